@@ -1,7 +1,7 @@
 (* Properties_C20.v — ONLY the property theorems for C20 (tag/string conversions), each closed by
    [exact lemma] and followed by Print Assumptions.  Models: Model/TagModel.v (hand-written after
    src/gr_face.cpp), tied to the source by Gen/GenTag.v (tie A) and the correspondence harness (tie B). *)
-From GR Require Import Base.Bytes Model.TagModel Proofs.TagProofs Gen.GenTag Proofs.GenAgree.
+From GR Require Import Base.Bytes Model.TagModel Proofs.TagProofs Gen.GenTag Proofs.GenAgreeTag.
 Local Open Scope N_scope.
 
 (* gr_str_to_tag on the region holding exactly the C string and its terminator: no trap (no read beyond
